@@ -22,7 +22,7 @@ for base,dst in json.load(open(D+'/meta.json')).get('demo_files',{}).items():
     os.makedirs(os.path.dirname(os.path.join(W,dst)),exist_ok=True); shutil.copy(os.path.join(D,'demo',base),os.path.join(W,dst))
 PY
 echo "untracked demo files: $(git status --porcelain | grep '^??' | awk '{print $2}' | tr '\n' ' ')"
-CMD=$(python3 -c "import json;print(json.load(open('$D/meta.json'))['demo_command'])" | sed "s#/tmp/seed2\?_$P#$W#g" | sed 's/&amp;/\&/g' | sed 's/   (.*$//' )
+CMD=$(python3 -c "import json;print(json.load(open('$D/meta.json'))['demo_command'])" | sed "s#/tmp/seed[0-9]*_$P#$W#g" | sed 's/&amp;/\&/g' | sed 's/   (.*$//' )
 echo "demo cmd: $CMD"
 ( eval "$CMD" ) > $D/demo_with_patch.log 2>&1; echo "demo with patch: rc=$?"
 git apply -R $D/patch.diff ; ( eval "$CMD" ) > $D/demo_without_patch.log 2>&1; echo "demo without patch: rc=$?"; git apply $D/patch.diff
